@@ -763,6 +763,12 @@ func (endp *Endpoint) wrapErr(msgId string, mangleUTF8 bool, command string, err
 		}
 	}
 
+	if res.EnhancedCode != smtp.EnhancedCodeNotSet && res.EnhancedCode != smtp.NoEnhancedCode {
+		// E.g. "550 2.1.5" would read as success for who looks at the
+		// enhanced code.
+		res.EnhancedCode = smtp.EnhancedCode(exterrors.EnhancedCode(res.EnhancedCode).FitFor(res.Code))
+	}
+
 	if msgId != "" {
 		res.Message += " (msg ID = " + msgId + ")"
 	}
